@@ -46,6 +46,21 @@ def gen_plan(rng, opts=None):
             else:
                 l.append(["read", key, 0])
         ops.append(l)
+    if not o["reuse"]:
+        # the regime cascade itself uses: a key is written at most once and never allocated again after a purge
+        n = 0
+        written = []
+        for l in ops:
+            for op in l:
+                if op[0] in ("write", "write_leak"):
+                    op[1] = f"u{n}"
+                    written.append(op[1])
+                    n += 1
+        for l in ops:
+            for op in l:
+                if op[0] in ("read", "read_leak", "purge") and written:
+                    op[1] = rng.choice(written)
+        keys = written or keys
     faults = []
     if o["faults"]:
         for _ in range(rng.choice([1, 1, 2])):
@@ -83,6 +98,10 @@ class Mon:
         self.job_q = collections.defaultdict(list)   # (fn name, shmid) -> incarnations at submission, FIFO
         self.job_of_thread = {}            # pool thread name -> (fn name, shmid, incarnation at submission)
         self.stale_job_ran = False         # a disk job ran against a later incarnation than the one it was submitted for
+        self.grant_by_port = {}            # client port of the granting allocate request -> (shmid, incarnation)
+        self.purge_seg_present = None
+        self.pending_close = collections.defaultdict(list)   # key -> [(shmid, incarnation)] of writer closes sent, in order
+        self.stale_writer_closed = False   # a writer whose incarnation was purged (and the key re-allocated) sent its close callback
         self.pageouts_in_flight = {}
 
     def any_live_job_stale(self):
@@ -92,13 +111,21 @@ class Mon:
         if self.any_live_job_stale():
             self.stale_job_ran = True
         sig.setdefault("stale_job_ran", self.stale_job_ran)
+        sig.setdefault("stale_writer_closed", self.stale_writer_closed)
         self.viol.append((prop, cls, detail, sig))
 
     def free_model(self):
         return self.cap - sum(self.resident.values())
 
+    def cur_readers(self, key):
+        cur = self.incarn.get(self.key2shmid.get(key))
+        return [r for r, (t, inc) in self.readers.get(key, {}).items() if inc == cur]
+
     def fresh_readers(self, key):
-        return [r for r, t in self.readers.get(key, {}).items() if self.K.now - t <= self.dataset.STALE_READ]
+        """Readers of the CURRENT incarnation of the key that are younger than the staleness window.  (A reader of an earlier
+        incarnation - one whose segment was already taken away from it, which was reported then - protects nothing any more.)"""
+        cur = self.incarn.get(self.key2shmid.get(key))
+        return [r for r, (t, inc) in self.readers.get(key, {}).items() if inc == cur and self.K.now - t <= self.dataset.STALE_READ]
 
     # --- UDP seam of the server
     def on_recv(self, sock, b, addr):
@@ -106,6 +133,14 @@ class Mon:
             return
         msg = self.api.deser(b)
         self.last_req = msg
+        if isinstance(msg, self.api.PurgeRequest):
+            self.purge_seg_present = self.key2shmid.get(msg.key) in self.K.segments
+        if isinstance(msg, self.api.CloseCallback) and not msg.rdid and self.pending_close.get(msg.key):
+            sid, inc = self.pending_close[msg.key].pop(0)
+            if sid is not None and self.incarn.get(sid) != inc:
+                # this writer's dataset was purged under it and the key granted again: its close callback carries only the key
+                self.stale_writer_closed = True
+                self.K.probe("close_of_purged_incarnation")
         if isinstance(msg, self.api.CloseCallback) and msg.rdid:
             # the client unmaps before it sends the callback: the read is over when the server receives it
             self.readers[msg.key].pop(msg.rdid, None)
@@ -126,6 +161,7 @@ class Mon:
                 self.shmid2key[resp.shmid] = req.key
                 self.key2shmid[req.key] = resp.shmid
                 self.incarn[resp.shmid] += 1
+                self.grant_by_port[addr[1]] = (resp.shmid, self.incarn[resp.shmid])
                 self.resident[resp.shmid] = req.l
                 self.sizes[resp.shmid] = req.l
                 self.writer_closed.discard(req.key)
@@ -141,7 +177,7 @@ class Mon:
         elif isinstance(req, api.CloseCallback):
             if isinstance(resp, api.OkResponse) and not err and not req.rdid:
                 self.writer_closed.add(req.key)
-            if req.rdid and req.key in self.delayed_purge and not self.readers.get(req.key):
+            if req.rdid and req.key in self.delayed_purge and not self.cur_readers(req.key):
                 # the purge that was issued during the read takes effect when the last reader closes
                 self.delayed_purge.discard(req.key)
                 sid = self.key2shmid.get(req.key)
@@ -150,11 +186,11 @@ class Mon:
                 else:
                     K.probe("delayed_purge_applied")
         elif isinstance(req, api.PurgeRequest):
-            if self.readers.get(req.key):
+            if self.cur_readers(req.key):
                 self.delayed_purge.add(req.key)
                 K.probe("delayed_purge")
                 sid = self.key2shmid.get(req.key)
-                if sid not in K.segments and self.fresh_readers(req.key):
+                if self.purge_seg_present and sid not in K.segments and self.fresh_readers(req.key):
                     self.v("C09", "purge_during_read_removed_segment", (req.key, sid))
             else:
                 self.delayed_purge.discard(req.key)
@@ -162,7 +198,7 @@ class Mon:
             if isinstance(resp, api.GetResponse) and not err:
                 if req.key not in self.writer_closed:
                     self.v("C09", "readable_before_writer_closed", req.key, writer_died=req.key in self.leaked_writers)
-                self.readers[req.key][resp.rdid] = K.now
+                self.readers[req.key][resp.rdid] = (K.now, self.incarn.get(self.key2shmid.get(req.key)))
                 K.probe("get_granted")
             elif err == "wait":
                 K.probe("get_wait")
@@ -344,6 +380,7 @@ def run(plan, ch, want_log=False):
                     results["alloc_" + type(err).__name__] += 1
                     continue
                 data = _payload(key, ci, oi, size)
+                my_sid, my_inc = mon.grant_by_port.get(getattr(K.cur(), "last_udp_port", None), (None, None))
                 try:
                     buf.view()[:size] = data
                 except (ValueError, TypeError) as e:
@@ -358,6 +395,9 @@ def run(plan, ch, want_log=False):
                 # completely written now: a reader may be granted as soon as the server has processed the close,
                 # i.e. before this thread runs again
                 incarnations[key].append(data)
+                # which incarnation this writer is about to close: judged when the server handles the callback (requests that
+                # were sent earlier - a purge, another allocate - are handled first); no seam between here and the send
+                mon.pending_close[key].append((my_sid, my_inc))
                 try:
                     buf.close()
                     results["written"] += 1
